@@ -17,6 +17,7 @@ from vf import common, tlaval, tlc
 PATH_SCRIPT = {
     'pass': dict(st='C', p1='C', p2='C', t1='C'),
     'fail': dict(st='C', p1='F', p2='C', t1='C'),
+    'fail_unset': dict(st='C', p1='C', p2='C', t1='C'),
     'stop': dict(st='C', p1='C', p2='S', t1='C'),
     'error': dict(st='C', p1='E'),
     'start_terminal': dict(st='E'),
@@ -64,6 +65,8 @@ def _run_history(hist):
 
   def body_hook(ctx_, name, test_api, b):
     cur = state['cur']
+    if name == 'p1' and cur['path'] != 'fail_unset':
+      test_api.measurements.dd[0] = 1      # in path fail_unset the dimensioned measurement stays UNSET
     if name == 'st':
       if cur['dut']:
         test_api.dut_id = 'DUT%d' % state['run']
@@ -77,6 +80,9 @@ def _run_history(hist):
           state['overlap'] = 'raised %s' % type(e).__name__
   ctx.hooks['body'] = body_hook
   test, start = build.make_test(ctx, prog, timeout_s=5)
+  for p in test.descriptor.phase_sequence.all_phases():
+    if p.name == 'p1':
+      p.measurements.append(htf.Measurement('dd').with_dimensions('x'))
   # dynamic constructor fault for plug x
   xcls = None
   for p in test.descriptor.phase_sequence.all_phases():
@@ -170,7 +176,7 @@ def _run_history(hist):
       for p in c['phases']:
         if p['oc'] is None or p['res'] == 'UNSET' or not p['has_opts']:
           bad.append(('phase record without outcome/result/options handed to a callback', det))
-        if not p['s'] or not p['e'] or p['s'] > p['e'] or p['e'] > c['end']:
+        if not p['s'] or not p['e'] or p['s'] > p['e'] or not c['end'] or p['e'] > c['end']:
           bad.append(('phase record times not within start <= end <= test end', det))
     if call['overlap'] != 'none':
       exp = 'refused' if call['refused'] else None
@@ -253,7 +259,7 @@ def abort_sweep(chk):
   chk.log('%d schedules with a single abort judged on the record clauses' % n)
 
 
-def real_sigint(chk):
+def real_sigint(chk, owned=None):
   """real threads and a real SIGINT (no scheduler, own process): the signal
   arrives while execute() is blocked waiting for the executor thread - the
   "(or re-raises KeyboardInterrupt)" exit of the statement on the interpreter
@@ -274,16 +280,21 @@ def real_sigint(chk):
       n += 1
       det = dict(scenario='real SIGINT', where=where, observed=r)
       what = 'real SIGINT while execute() waits for the executor (a %s phase is running): ' % where
-      if r['ret'] != 'KeyboardInterrupt':
+      if owned is None and r['ret'] != 'KeyboardInterrupt':
         chk.violation(what + 'execute() does not re-raise KeyboardInterrupt', det)
-      if len(r['callbacks']) != 1:
+      if owned is None and len(r['callbacks']) != 1:
         chk.violation(what + 'output callback called %d times' % len(r['callbacks']), det)
       for c in r['callbacks']:
+        if owned == 'plugs':
+          if c.get('plug_td') != ['td-begin', 'td-end']:
+            chk.violation('real SIGINT while execute() waits for the executor: plug tearDown had not finished when the '
+                          'output callbacks ran (%s)' % c.get('plug_td'), det)
+          continue
         if c['oc'] is None or not c['end'] or any(p[1] is None or not p[2] for p in c['phases']):
           chk.violation(what + 'the record handed to the callbacks is not final', det)
         elif c['oc'] != 'ABORTED':
           chk.violation(what + 'outcome is %s' % c['oc'], det)
-      if r['state_left'] or r['registered']:
+      if owned is None and (r['state_left'] or r['registered']):
         chk.violation(what + 'the Test keeps its executor / SIGINT registration', det)
   chk.traces += n
   chk.nontrivial += n
@@ -298,7 +309,7 @@ def main(chk):
     if not cov.get(a, (0, 0))[1]:
       raise tlc.TLCError('vacuity: action %s never taken' % a)
   chk.add_tlc('design', res, action_counts={k: v[1] for k, v in cov.items()})
-  allp = '"pass", "fail", "stop", "error", "start_terminal", "plug_fail", "timeout", "abort"'
+  allp = '"pass", "fail", "fail_unset", "stop", "error", "start_terminal", "plug_fail", "timeout", "abort"'
   if chk.tier == 'quick':
     runs = [dict(paths=allp, calls=2, raisesets='{{}, {2}, {1, 2, 3}}', duts='{TRUE}'),
             dict(paths='"pass", "error", "abort"', calls=3, raisesets='{{}, {1, 3}}', duts='{FALSE}')]
